@@ -15,7 +15,7 @@ open Synphot
 variable {K : Type} [Field K] [LinearOrder K] [IsStrictOrderedRing K]
 
 structure WF (h : Heap K) : Prop where
-  tables : ∀ (m : Nat) (c : TableCell), h.tables[m]? = some c →
+  tables : ∀ (m : Nat) (c : TableCell K), h.tables[m]? = some c →
     c.pts < h.arrays.length ∧ c.vals < h.arrays.length
   objs : ∀ (o : Nat) (ob : Obj K), h.objs[o]? = some ob → ∀ m ∈ ob.tree.tables, m < h.tables.length
 
@@ -344,7 +344,7 @@ theorem toFits_ok (fx : Fixes) (h : Heap K) (o : Nat) (w : WaveArg K) (d : Optio
                 · trivial
 
 theorem newEmpirical_ok (fx : Fixes) (h : Heap K) (hw : WF h) (kind : Kind) (x y : Nat) (xc yc : List K)
-    (keep : Bool) (md : Option Nat) (f0 : Bool) (zi : Option (K × ZType)) :
+    (keep : Bool) (md : Option Nat) (f0 : FillArg K) (zi : Option (K × ZType)) :
     okAll h (newEmpirical fx h kind x y xc yc keep md f0 zi).1 := by
   unfold newEmpirical
   split
